@@ -590,6 +590,21 @@ func zzTimeLeaf(key string, form int) *zzExpr {
 	var text string
 	// lower bound L: value >= -a ; upper bound U: value <= -b (relative ns)
 	hasL, hasU := false, false
+	addAbs := func(r int, which int) int64 {
+		// absolute timestamps: concrete sample dates around the reference time
+		// (2023-11-14 22:13:20 UTC); the arithmetic that re-bases them is real code
+		dates := []time.Time{time.Date(2023, 11, 14, 22, 0, 0, 0, time.UTC), time.Date(2023, 11, 13, 9, 30, 0, 0, time.UTC)}
+		texts := []string{"2023-11-14 2200", "2023-11-13 0930"}
+		l.Range[r].Parts = zzGrow(l.Range[r].Parts)
+		p := &l.Range[r].Parts[len(l.Range[r].Parts)-1]
+		p.Time = &timeParser{Time: dates[which], HasDate: true}
+		if r == 0 {
+			text = texts[which] + ":"
+		} else {
+			text = ":" + texts[which]
+		}
+		return -int64(dates[which].Sub(time.Unix(1700000000, 0)))
+	}
 	switch form {
 	case 0:
 		add(0, a)
@@ -599,11 +614,17 @@ func zzTimeLeaf(key string, form int) *zzExpr {
 		add(1, b)
 		hasU = true
 		text = fmt.Sprintf(":-%dns", b)
-	default:
+	case 2:
 		add(0, a)
 		add(1, b)
 		hasL, hasU = true, true
 		text = fmt.Sprintf("-%dns:-%dns", a, b)
+	case 3:
+		a = addAbs(0, zz.Choice("time.date", 2))
+		hasL = true
+	default:
+		b = addAbs(1, zz.Choice("time.date", 2))
+		hasU = true
 	}
 	val := text
 	if zz.Symbolic() {
